@@ -93,7 +93,7 @@ PROPS = {
                 rule="mixed API histories executed sequentially; a fingerprint of SRS, Q, weight tables, precomputed tables (strided per call, complete before/after the history), package variables and labels is taken around every call; every call checks its own inputs bit-for-bit afterwards; outputs compared with the model (history independence: the model is a pure function of the case line)."),
     "C14": dict(ties=['Schedules', 'Transcript'], level="proof", selftest=True, verdict=c14_verdict,
                 rule="operation sequences of length 0..64 (thorough 0..512) over the five operations, empty labels/messages, pending buffers beyond 1 kB / 4 kB / 20 kB, scalars 0, r-1, points in several representations, consecutive challenges; binding pairs (same-shape byte change, swap, drop, protocol label change, label/message boundary shift)."),
-    "C15": dict(ties=['Loops', 'FrConsts', 'FrLimbs', 'FrCodec', 'FrMisc', 'FrMiscModel', 'FrInverse', 'FrMulConst', 'FrSqrtGo', 'GoIpa.Lemmas.Cios', 'GoIpa.Lemmas.ZpField', 'GoIpa.Lemmas.Primes', 'GoIpa.Lemmas.InverseProof', 'GoIpa.Lemmas.SqrtProof'], level="proof",
+    "C15": dict(ties=['Loops', 'FrConsts', 'FrLimbs', 'FrCodec', 'FrMisc', 'FrMiscModel', 'FrInverse', 'FrInverseValue', 'FrMulConst', 'FrSqrtGo', 'FrSqrtValue', 'GoIpa.Lemmas.Cios', 'GoIpa.Lemmas.ZpField', 'GoIpa.Lemmas.Primes', 'GoIpa.Lemmas.InverseProof', 'GoIpa.Lemmas.SqrtProof'], level="proof",
                 rule="Montgomery-limb boundary grid {0,1,2^63,2^64-1,q_i-1,q_i,q_i+1}^4 restricted to < r (1207 values): full cross product for add/sub/mul/cmp in thorough, all values plus 25k random pairs in quick; unary ops on grid, values within 2 of 0, r/2, r, R mod r, special and random values; div/exp pairs; BatchInvert with zeros at every position; every op through the assembly path, the assembly path with ADX disabled, the portable generic functions and all aliasing patterns."),
     "C16": dict(ties=['FrConsts', 'FrCodec', 'FrCodecEnc'], level="proof",
                 rule="byte strings of every length 0..64 for the three decoders; values 0,1,r-1,r,r+1,2r-1,2r,p,2^256-1 in 32/33/40/64-byte encodings; canonical and just-non-canonical 32-byte values; the caller's buffer is compared before/after and decoded twice."),
